@@ -56,3 +56,12 @@ k("C03",
   "Trusted: Kani/CBMC, z3, grammar transcriptions. Outside: that Rio inverts the escaping beyond the corpus; strings longer than the bound; non-BCP47 tags accepted by LANG_TAG.",
   "Kani/CBMC harness with decoder oracle + regex-language inclusion in z3 + native round-trip replay",
   "DESIGN.md 4 C03")
+
+k("C08",
+  "Partial (the Trusted<T> mechanism only). For each grammar terminal a parser can yield (blank node label, LANGTAG, VARNAME, PN_PREFIX, absolute IRI, IRI reference) z3 5.1 "
+  "decides for strings of every length that the terminal's language is included in the toolkit validator's language, so new_unchecked can neither panic under debug "
+  "assertions nor wrap an invalid value. Witnesses are replayed through the real nt/turtle/gtrig parsers (dev and release); two documented reference gaps "
+  "(consecutive dots, ':' in N-Triples labels) are assumed away and guarded natively on every run.",
+  "Trusted: z3, grammar transcriptions, that Rio yields only grammar tokens. Outside: totality/termination/stack of the third-party lexers on arbitrary bytes, RDF/XML, JSON-LD.",
+  "regex-language inclusion (grammar terminal ⊆ validator) decided by z3, witnesses replayed through the real parsers",
+  "DESIGN.md 4 C08", level="proof")
